@@ -64,6 +64,7 @@ def check_sedov(case):
     s = cat.make_solver(case)
     t = case['t']
     k, g, om = case['geometry'], case['gamma'], case['omega']
+    cat.quiet(s, np.array([1.0]), 2.3 * t)     # the object has been evaluated at another time before (a solver is normally used for a sequence of times)
     cat.quiet(s, np.array([1.0]), t)
     r2 = float(s.r2)
     typ = str(s.solution_type)
